@@ -26,6 +26,9 @@ pub enum Op {
     Send { s: u16 },
     /// same through the Sink interface (poll_ready, start_send, poll_flush)
     SinkSend { s: u16 },
+    /// 65..184 sends through the first sender followed by as many polls: a long run of receives
+    /// without a `Pending` in between (each must yield the next value)
+    Flood { n: u8 },
     /// `Sink::poll_close` on sender `s`: finishing one sender handle as a sink does not close the
     /// channel (that is what `Sender::close` is for) and leaves every sender usable
     SinkClose { s: u16 },
@@ -85,8 +88,25 @@ fn check_inner(c: &Case) -> CaseResult {
         };
     }
 
-    for (step, op) in c.ops.iter().enumerate() {
+    let expanded: Vec<Op> = c
+        .ops
+        .iter()
+        .flat_map(|o| match o {
+            Op::Flood { n } => {
+                let k = 65 + (*n as usize % 120);
+                let mut v = vec![Op::Send { s: 0 }; k];
+                v.extend(std::iter::repeat(Op::Poll).take(k));
+                v
+            }
+            other => vec![*other],
+        })
+        .collect();
+    if expanded.len() > c.ops.len() {
+        obs.label("long-run-of-receives");
+    }
+    for (step, op) in expanded.iter().enumerate() {
         match *op {
+            Op::Flood { .. } => {}
             Op::Send { s } | Op::SinkSend { s } => {
                 if senders.is_empty() {
                     continue;
@@ -265,6 +285,7 @@ fn op() -> impl Strategy<Value = Op> {
         5 => any::<u16>().prop_map(|s| Op::Send { s }),
         1 => any::<u16>().prop_map(|s| Op::SinkSend { s }),
         1 => any::<u16>().prop_map(|s| Op::SinkClose { s }),
+        1 => any::<u8>().prop_map(|n| Op::Flood { n }),
         2 => any::<u16>().prop_map(|s| Op::CloneSender { s }),
         3 => any::<u16>().prop_map(|s| Op::DropSender { s }),
         2 => any::<u16>().prop_map(|s| Op::Close { s }),
@@ -309,7 +330,7 @@ pub fn case_from_bytes(data: &[u8]) -> Case {
     }
 }
 
-const RULE: &str = "operation sequences over {send, Sink send, Sink close (a no-op for the channel), clone sender, drop a sender, close, poll receiver with a fresh counting waker or one of two long-lived wakers (also through recv()), sender-from-receiver, drop receiver} with <=3 senders, applied to local_channel::mpsc and to a reference queue model; send must fail exactly when the receiver is gone or the channel closed (returning the item); poll_next must equal the model; a Pending poll's waker must be woken by the next successful send, the last sender's drop and close (extra wake-ups allowed); a final drain must return the buffered items in order; non-trivial = a Pending poll followed by send/last-drop/close, or close with a live sender followed by a poll";
+const RULE: &str = "operation sequences over {send, Sink send, Sink close (a no-op for the channel), a flood of 65..184 sends followed by as many polls, clone sender, drop a sender, close, poll receiver with a fresh counting waker or one of two long-lived wakers (also through recv()), sender-from-receiver, drop receiver} with <=3 senders, applied to local_channel::mpsc and to a reference queue model; send must fail exactly when the receiver is gone or the channel closed (returning the item); poll_next must equal the model; a Pending poll's waker must be woken by the next successful send, the last sender's drop and close (extra wake-ups allowed); a final drain must return the buffered items in order; non-trivial = a Pending poll followed by send/last-drop/close, or close with a live sender followed by a poll";
 
 pub fn run(ctx: &Ctx) {
     ctx.assume("single-threaded use (the channel is !Send); wake-ups observed through counting wakers, one fresh waker per poll or one of two long-lived wakers");
